@@ -52,6 +52,9 @@ Check(r) ==
           /\ ((\A c \in FieldConsts(s) : c[1] \in DOMAIN r.consts /\ r.consts[c[1]] = c[2])
                 \/ Rej(r, "a field number constant differs from the schema",
                        [bad |-> {c \in FieldConsts(s) : ~(c[1] \in DOMAIN r.consts /\ r.consts[c[1]] = c[2])}]))
+          /\ ((\A c \in EnumConsts(s) : c[1] \in DOMAIN r.consts /\ r.consts[c[1]] = c[2])
+                \/ Rej(r, "an enumeration constant differs from the schema",
+                       [bad |-> {c \in EnumConsts(s) : ~(c[1] \in DOMAIN r.consts /\ r.consts[c[1]] = c[2])}]))
           /\ \A j \in 1..Len(s.owners) : CheckOwner(r, s.owners[j])
           /\ \A j \in 1..Len(s.owners) : s.owners[j].kind = "entry" => CheckGroup(r, s.owners[j])
           /\ (r.refCompared => (r.refSame \/ Rej(r, "the shipped reference package differs from what the generator produces from the reference schema",
